@@ -18,6 +18,8 @@ MediaKeys == "3e000b00000000 0 0 0"                                            \
 PadKeys == "fa0000001000cffe"                                                   \* a 20-key macro pad, exactly at the tool's 20-key threshold, with key 63 (F5, the top bit of a word)
 MmoKeys == "6003800000000 0 fffffffffffffffe"                                  \* macro-key interface of an MMO mouse: SCROLLDOWN above an EMPTY mask word
 
+TouchKeys == "70000 402000000 3803078f800d001 feffffdfffefffff fffffffffffffffe"   \* a full keyboard + BTN_LEFT, BTN_RIGHT, BTN_MIDDLE (272-274: codes no KEY_ name stands for)
+
 Absent == "-"
 E(kind, name, sysfs, ev, key) == [kind |-> kind, name |-> name, sysfs |-> sysfs, ev |-> ev, key |-> key]
 Kinds == <<
@@ -48,7 +50,10 @@ Kinds == <<
   E("nonascii-keyboard", "Microsoft Microsoft(R) 2.4GHz Transceiver v9.0", "/devices/pci0000:00/usb1/1-10/input/input26", "120013", FullKeys),
   E("ble-uhid-keyboard", "BLE Board 5.0",               "/devices/virtual/misc/uhid/0005:046D:B342.0007/input/input25", "120013", FullKeys),
   \* a name that ends in a double quote (an inch sign): the kernel writes it between quotes without escaping, so the line ends in two quotes
-  E("quote-name",      "Rii Mini Keyboard 7\"",          "/devices/pci0000:00/usb1/1-11/input/input27", "120013", FullKeys)
+  E("quote-name",      "Rii Mini Keyboard 7\"",          "/devices/pci0000:00/usb1/1-11/input/input27", "120013", FullKeys),
+  \* a keyboard with a built-in touchpad on one node (Logitech K400 Plus): the typing keys plus the touchpad's buttons in one key map, pointer
+  \* axes and LEDs among its event types - a real keyboard that has to be selected
+  E("keyboard-touchpad", "Logitech K400 Plus",          "/devices/pci0000:00/usb1/1-12/input/input28", "12001f", TouchKeys)
 >>
 KindIds == 1..Len(Kinds)
 
@@ -76,9 +81,9 @@ IsVirtual(e) == e.sysfs \in {"/devices/virtual/input/input20", "/devices/virtual
 
 \* the heuristic of the tool, per entry (informative: a disagreement is DRIFT, the heuristic is not a listed property)
 Keyboardish(e) ==
-  LET full == e.key \in {FullKeys, MouseKeys, ScrollKeys, PadKeys, MmoKeys}
+  LET full == e.key \in {FullKeys, MouseKeys, ScrollKeys, PadKeys, MmoKeys, TouchKeys}
       scroll == e.key \in {ScrollKeys, MmoKeys}
-      noleds == e.ev \notin {"120013"}
+      noleds == e.ev \notin {"120013", "12001f"}
       mouseName == e.name \in {"GXT 4155 Gaming Mouse", "Gaming Mouse Keyboard", "Virtual Mouse", "Razer Mouse"}
       kbdName == e.name \in {"AT Translated Set 2 keyboard", "Gaming Mouse Keyboard", "Ghost keyboard"}
       mousey == (IF scroll THEN 1 ELSE 0) + (IF noleds THEN 1 ELSE 0) + (IF mouseName THEN 1 ELSE 0) >= 2
@@ -88,7 +93,7 @@ Keyboardish(e) ==
 \* keyboard-like key maps, buttons, switches") and the repository's example hardware agrees.  For these a wrong class on
 \* either path is a violation of C16 ("only real keyboards ... every other keyboard-like device is"); for the constructed
 \* boundary kinds a difference from Keyboardish stays DRIFT.
-SureKeyboard == {"keyboard", "keyboard-noleds", "virtual-keyboard", "ble-uhid-keyboard", "nonascii-keyboard", "quote-name"}
+SureKeyboard == {"keyboard", "keyboard-noleds", "virtual-keyboard", "ble-uhid-keyboard", "nonascii-keyboard", "quote-name", "keyboard-touchpad"}
 SureNotKeyboard == {"gaming-mouse", "power-button", "video-bus", "cros-ec", "virtual-mouse", "mmo-mouse-macro"}
 
 \* exclude patterns and the names they match (glob semantics over the finite universe of names)
